@@ -119,3 +119,27 @@ Theorem C01_checked_run_reads : forall m ops,
   forall k v, get (run (init m) ops) k v = latest_at (writes ops) k v.
 Proof. exact checked_run_reads. Qed.
 Print Assumptions C01_checked_run_reads.
+
+From Coq Require Import ZArith.
+From NoKV Require Import Model.Targets Proofs.TargetsProofs Proofs.LsmMove.
+
+(** The planner's base level (destination of L0 moves; model of compact.BuildTargets,
+    tied to the code by differential testing of the pure function and of the planner's
+    own targets before every L0 compaction) never lies below a level that holds data... *)
+Theorem C01_base_level_above_data : forall sizes o j,
+  (1 <= j < t_base (build_targets sizes o))%nat -> (nth j sizes 0 <= 0)%Z.
+Proof. exact base_level_above_data. Qed.
+Print Assumptions C01_base_level_above_data.
+
+(** ...and a move of the oldest L0 tables to such a level keeps the recency order across
+    tiers (memtables, L0, every level).  The order INSIDE the destination's ingest buffer
+    is the known finding C01-F2 and is not claimed. *)
+Theorem C01_move_to_base_keeps_cross : forall s sizes o top bot added,
+  let b := N.of_nat (t_base (build_targets sizes o)) in
+  sizes_of_state sizes s ->
+  lvl_in s b -> shards_room (pick top (st_l0 s)) (lv_shards (get_level s b)) ->
+  cross_ok (tiers_of s) ->
+  recs_geq (trecs (drop top (st_l0 s))) (trecs (pick top (st_l0 s))) ->
+  cross_ok (tiers_of (compact s KMove b top bot added)).
+Proof. exact move_to_base_keeps_cross. Qed.
+Print Assumptions C01_move_to_base_keeps_cross.
